@@ -75,7 +75,7 @@ func NewC05(tier string) *C05 {
 		"dep_ok", "dep_disputed", "dep_negfee", "dep_huge", "dep_huge_dec6", "dep_huge_dec24", "dep_zero", "dep_unknown_token", "dep_unknown_chain", "dep_to_hub_short_recv", "dep_negfee_hub",
 		"exec_first", "exec_first_hugefee", "exec_unknown", "valset_event", "logic_event", "prices", "prices_partial", "holders", "observe_far", "prices_extra_name_by_powerless", "holders_by_powerless",
 		"delegate_dup_ext", "delegate_dup_orch", "delegate_fresh",
-		"dep_big", "send_bigfee", "send_big1",
+		"dep_big", "send_bigfee", "send_big1", "dep_minter_ok", "param_eth_fast", "param_hub_slow",
 		"holders_one_nil", "holders_nil_last_empty_majority", "prices_dup_name", "prices_huge_extra", "prices_nil_value_extra", "prices_negative_extra", "prop_cold_hub", "prop_tokeninfos_empty"}
 	c.Pairs = [][2]string{{"send2", "send70"}, {"send1", "send65"}, {"dep_ok", "send70"}, {"observe_far", "send2"}, {"prices", "exec_first"}, {"reqbatch", "send70"}, {"send70", "reqbatch"}}
 	// a key registration that is rejected (address / orchestrator already in use) or accepted in the middle of a block that
@@ -122,6 +122,9 @@ func (c *C05) seedPaths() [][]engine.Op {
 		{blk(5, "empty"), blk(5, "send2")},
 		{blk(5, "dep_ok"), blk(5, "send70", "reqbatch"), blk(5, "observe_far")},
 		{blk(5, "prices"), blk(5, "empty"), blk(5, "empty"), blk(5, "empty"), blk(5, "send2", "reqbatch")},
+		// block-time parameters changed by governance after events of ethereum and Minter have been observed
+		{blk(5, "dep_ok", "dep_minter_ok"), blk(5, "param_eth_fast")},
+		{blk(5, "dep_ok", "dep_minter_ok"), blk(5, "param_hub_slow")},
 		// fees at the 2^256 scale: two transfers with a fee of 2^255 each (funded by two successive deposits) in one pending batch
 		{blk(5, "dep_big"), blk(5, "send_bigfee", "dep_big"), blk(5, "send_bigfee"), blk(5, "empty")},
 		// ... and both still in the pool (odd height) while an older batch of the token is pending
@@ -397,6 +400,20 @@ func (c *C05) item(in *hub.Instance, ns *c05State, it string, st *engine.Step) {
 			return &mhubtypes.TransferToChainEvent{EventNonce: n, ExternalCoinId: EthHub, Amount: sdk.NewInt(100000), Fee: sdk.NewInt(10), Sender: sender,
 				ReceiverChainId: "minter", ExternalReceiver: hub.HexAddr("x"), ExternalHeight: 1000 + n, TxHash: fmt.Sprintf("0xd%d", n)}
 		}, st)
+	case "dep_minter_ok":
+		c.vote(in, ns, "minter", func(n uint64) mhubtypes.ExternalEvent {
+			return &mhubtypes.SendToHubEvent{EventNonce: n, ExternalCoinId: "1", Amount: sdk.NewInt(100000), Sender: sender, CosmosReceiver: c.User.String(), ExternalHeight: 1000 + n, TxHash: fmt.Sprintf("Mtd%d", n)}
+		}, st)
+	case "param_eth_fast", "param_hub_slow":
+		// governance brings a block-time parameter up to date: an external chain that is faster than the hub
+		// (ethereum 3 s against the hub's 5 s; the hub at 6 s against Minter's fixed 5 s)
+		key, val := "AverageEthereumBlockTime", `"3000"`
+		if it == "param_hub_slow" {
+			key, val = "AverageBlockTime", `"6000"`
+		}
+		if err := in.ParamChange(mhubtypes.DefaultParamspace, key, val); err == nil {
+			st.Count("parameter_changes", 1)
+		}
 	case "dep_disputed":
 		// the validators disagree about the next event: three different claims at one nonce, none reaches 66 %
 		// (a later unanimous claim then reaches quorum at the following nonce while this one is undecided)
